@@ -125,9 +125,13 @@ def write(handle:IO, anno:GenomicAnnotation) -> None:
             tx_model = anno.transcripts[tx_id]
             record = to_gtf_record(tx_model.transcript, tx_model.is_protein_coding)
             handle.write(record + '\n')
-            records = tx_model.cds + tx_model.exon
+            records = tx_model.cds + tx_model.exon + tx_model.start_codon \
+                + tx_model.stop_codon
             records.sort()
             records.extend(tx_model.utr)
+            # five/three prime UTR records that were not derived from `utr`
+            records.extend(x for x in tx_model.five_utr + tx_model.three_utr
+                if not any(x is y for y in tx_model.utr))
             records = tx_model.selenocysteine + records
             for record in records:
                 handle.write(to_gtf_record(record) + '\n')
